@@ -57,7 +57,8 @@ with flds :=
 
 Definition is_message (n : bytes) : bool := bytes_eqb n (str "message").
 (* name if name.starts_with("r#") => &name[2..] *)
-Definition strip_raw (n : bytes) : bytes := match n with 114 :: 35 :: r => r | _ => n end.
+Definition strip_raw (n : bytes) : bytes :=
+  match n with a :: b :: r => if (a =? 114) && (b =? 35) then r else n | _ => n end.   (* "r#" *)
 (* "message" => "{:?}", name => "{}={:?}" *)
 Definition fld_head (n : bytes) : bytes := if is_message n then [] else strip_raw n ++ [61].
 (* maybe_pad *)
@@ -91,9 +92,11 @@ Definition span_fields (s : span) : bytes := fold_left add_group (s_groups s) []
 (** ** Format<Full> / Format<Compact> *)
 
 Definition level_str (f : fmt) (l : N) : bytes :=
-  match f, l with
-  | Full, 1 => str "ERROR" | Full, 2 => str " WARN" | Full, 3 => str " INFO" | Full, 4 => str "DEBUG" | Full, _ => str "TRACE"
-  | Compact, 1 => str "X" | Compact, 2 => str "!" | Compact, 3 => str "i" | Compact, 4 => str ":" | Compact, _ => str "."
+  match f with
+  | Full => if l =? 1 then str "ERROR" else if l =? 2 then str " WARN" else if l =? 3 then str " INFO"
+            else if l =? 4 then str "DEBUG" else str "TRACE"
+  | Compact => if l =? 1 then str "X" else if l =? 2 then str "!" else if l =? 3 then str "i"
+               else if l =? 4 then str ":" else str "."
   end.
 
 (* format_timestamp, format_level, thread name, thread id — common to both formats *)
@@ -218,3 +221,88 @@ Definition thread_events (f : fmt) (o : opts) (sc : spancfg) (th : thr) (ops : l
 Definition thread_sink_log (c : cfg) (f : fmt) (o : opts) (sc : spancfg) (w : wexp) (th : thr) (ops : list op)
   : list (N * sink_call) :=
   distribute meta_of w (snd (run_thread c [] (thread_events f o sc th ops))).
+
+(** ** Token view of a record (specification side of C13_content) *)
+
+Inductive tok :=
+| TTimer
+| TLevel (l : N)
+| TThreadName (b : bytes)
+| TThreadId (b : bytes)
+| TSpan (name fields : bytes)          (* Full: one span in scope, with its formatted fields *)
+| TScopeEnd                            (* Full: the blank after a non-empty scope *)
+| TTarget (t : bytes)
+| TFile (f : bytes) (line_follows : bool)
+| TLine (l : bytes)
+| TField (first : bool) (name v : bytes)   (* one event field with its value *)
+| TSpanFields (fields : bytes)         (* Compact: the fields of one span in scope (names are not shown) *)
+| TNewline.
+
+Definition render_tok (f : fmt) (t : tok) : bytes :=
+  match t with
+  | TTimer => str "TIME "
+  | TLevel l => level_str f l ++ [32]
+  | TThreadName b => b ++ [32]
+  | TThreadId b => b ++ [32]
+  | TSpan n fs => n ++ (match fs with [] => [] | _ => [123] ++ fs ++ [125] end) ++ [58]
+  | TScopeEnd => [32]
+  | TTarget t => t ++ (match f with Full => str ": " | Compact => [58] end)
+  | TFile fl lf => fl ++ [58] ++ (match f with Full => if lf then [] else [32] | Compact => [] end)
+  | TLine l => l ++ (match f with Full => str ": " | Compact => [58] end)
+  | TField first n v => pad first ++ fld_head n ++ v
+  | TSpanFields fs => [32] ++ fs
+  | TNewline => [10]
+  end.
+
+Definition opt_tok (b : bool) (t : tok) : list tok := if b then [t] else [].
+
+Definition head_toks (o : opts) (m : emeta) (th : thr) : list tok :=
+  opt_tok (o_timer o) TTimer ++ opt_tok (o_level o) (TLevel (e_level m)) ++
+  opt_tok (o_tname o) (TThreadName (th_name th)) ++ opt_tok (o_tid o) (TThreadId (th_id th)).
+
+Definition loc_toks (o : opts) (m : emeta) : list tok :=
+  opt_tok (o_target o) (TTarget (e_target m)) ++
+  (if o_file o then
+     match e_file m with
+     | Some f => [TFile f (match shown_line o m with Some _ => true | None => false end)]
+     | None => []
+     end
+   else []) ++
+  (match shown_line o m with Some l => [TLine l] | None => [] end).
+
+Fixpoint field_toks (first : bool) (fs : list (bytes * bytes)) : list tok :=
+  match fs with [] => [] | (n, v) :: r => TField first n v :: field_toks false r end.
+
+(** spans root -> leaf, in the order of the scope *)
+Definition span_toks_full (sc : list span) : list tok :=
+  map (fun s => TSpan (s_name s) (span_fields s)) sc ++ (match sc with [] => [] | _ => [TScopeEnd] end).
+Definition span_toks_compact (sc : list span) : list tok :=
+  flat_map (fun s => match span_fields s with [] => [] | fs => [TSpanFields fs] end) sc.
+
+Definition tokens_spec (f : fmt) (o : opts) (th : thr) (m : emeta) (sc : list span) (fs : list (bytes * bytes)) : list tok :=
+  match f with
+  | Full => head_toks o m th ++ span_toks_full sc ++ loc_toks o m ++ field_toks true fs ++ [TNewline]
+  | Compact => head_toks o m th ++ loc_toks o m ++ field_toks true fs ++ span_toks_compact sc ++ [TNewline]
+  end.
+
+(** The fields of an emission whose formatting completes, with the text each contributed. *)
+Fixpoint ok_fields (f : flds) : option (list (bytes * bytes)) :=
+  match f with
+  | FNil => Some []
+  | FOk n v r => option_map (cons (n, v)) (ok_fields r)
+  | FNested n _ post r => option_map (cons (n, post)) (ok_fields r)
+  | FPanic _ _ | FErr _ _ => None
+  end.
+
+Definition is_span_tok (t : tok) : bool := match t with TSpan _ _ | TSpanFields _ => true | _ => false end.
+Definition is_field_tok (t : tok) : bool := match t with TField _ _ _ => true | _ => false end.
+
+(** "no raw newline" in the inputs (the property's exclusion) *)
+Definition has10 (b : bytes) : bool := existsb (N.eqb 10) b.
+Definition clean_b (b : bytes) : bool := negb (has10 b).
+Definition clean_o (b : option bytes) : bool := match b with Some x => clean_b x | None => true end.
+Definition clean_fields (fs : list (bytes * bytes)) : bool := forallb (fun p => clean_b (fst p) && clean_b (snd p)) fs.
+Definition clean_span (s : span) : bool := clean_b (s_name s) && forallb clean_fields (s_groups s).
+Definition inputs_nl_free (th : thr) (m : emeta) (sc : list span) (fs : list (bytes * bytes)) : bool :=
+  clean_b (th_name th) && clean_b (th_id th) && clean_b (e_target m) && clean_o (e_file m) && clean_o (e_line m)
+  && forallb clean_span sc && clean_fields fs.
